@@ -69,6 +69,12 @@ CHECKS = {
  "C35": ("exploration", "run-time monitor: ordered/paginated answers vs the unsorted full answer of the same query with an independent comparator",
          "held on every generated relation/query of the run: sub-multiset, slice size, total_count, adjacent comparable keys in order, and (when all keys are comparable) the exact key sequence of positions [o, o+n) of the sorted answer",
          "trusted: the unsorted unpaginated answer of the same query; the harness's comparator on comparable pairs only", "3/C35"),
+ "C21": ("exploration", "independent proof checker re-validating every node of every proof tree returned by .why",
+         "held on every tree returned for the generated programs of the run: roots conclude answer tuples; rule steps instantiate registered clauses with bindings under which head, positive body atoms (vs children), comparisons and assignments check out; edb leaves are stored; negation leaves match nothing in the reference model",
+         "trusted: the harness's clause parser/unifier/evaluator and the reference model for derived and negated facts", "3/C21"),
+ "C22": ("exploration", "run-time monitor: every answer tuple with a shallow reference derivation must have a tree whose root is a real proof step",
+         "held on every answer tuple of the run apart from the listed known finding (tuples only derivable through computed-column rules): .why succeeds, returns a tree for the tuple, root is neither the truncated nor the derived-fact fallback",
+         "trusted: reference derivation depths (all far below the limit of 50)", "3/C22"),
 }
 NOT_YET = "monitor not built yet in this round (design in DESIGN.md section 3); not claimed until a check exists"
 
